@@ -27,6 +27,7 @@ def draw_knobs(rng, cfg):
     k["atoms_hi"] = rng.choice([2, 3, 4, 6])
     k["hostile"] = rng.choice([0.05, 0.2, 0.35])
     k["deep_rate"] = rng.choice([0.0, 0.15, 0.5])
+    k["variant_rate"] = rng.choice([0.0, 0.1, 0.25])
     return k
 
 
@@ -213,9 +214,14 @@ class Warm:
         return out
 
 
-def _gen_op(rng, at, knobs, live):
+def _gen_op(rng, at, knobs, live, ops=None):
     r = rng.random()
     sr = knobs["state_rate"]
+    if ops and rng.random() < knobs.get("variant_rate", 0.0):
+        cands = [i for i, o in enumerate(ops) if o["op"] in W.URLISH_OPS and o["op"] not in ("pickle", "copy", "deepcopy", "reduce", "origin", "relative", "parent")]
+        v = W.gen_variant(rng, ops, cands)
+        if v is not None:
+            return v
     if not live or r < 0.25:
         op = W.gen_constructor(rng, at, live)
     elif r < 0.25 + sr * 0.3:
@@ -246,7 +252,7 @@ def warm_generate(seed, cfg):
     run_prelude(pre)
     ex.info = W.lru_info_all()
     while len(ex.ops) < knobs["nops"]:
-        ex.step(_gen_op(rng, at, knobs, ex.live()))
+        ex.step(_gen_op(rng, at, knobs, ex.live(), ex.ops))
     final = sorted(rng.sample(ex.live(), min(6, len(ex.live()))))
     return finish_warm(ex, seed, pre, final)
 
